@@ -42,6 +42,7 @@ def run(ctx, rep, tier):
     loops.sort(key=lambda n: n.lineno)
 
     rep.rule("C05.a", "short-circuit merges append the absorbed transition's actions after the absorbing one's, carry the error mark, retarget")
+    rep.rule("C05.h", "the fall-through short-circuit never turns a transition whose own actions may leave early into a consuming one")
     rep.rule("C05.g", "neither rewriting loop bypasses an accepting state (resting in it is observable: DONE from feed/end)")
     rep.rule("C05.b", "no rewiring across condition points / non-eliminable proxies (source or target); Else widened by target.compute_foreign_else_definition(source)")
     for li, lp in enumerate(loops):
@@ -74,6 +75,18 @@ def run(ctx, rep, tier):
                 disj = st.test.values if isinstance(st.test, ast.BoolOp) and isinstance(st.test.op, ast.Or) else [st.test]
                 if any(ast.unparse(d) in (f"{tv}.target in self.dfa.accepting_states", f"self.dfa.is_accepting({tv}.target)") for d in disj):
                     acc = True
+        if li == 0:
+            # --- C05.h: the absorbing fall-through transition carries no action that may leave early
+            lv = False
+            for st in lp.body:
+                if any(isinstance(n, ast.Call) and isinstance(n.func, ast.Attribute) and n.func.attr in ("attach", "to", "fallthrough", "handles_else") for n in ast.walk(st)):
+                    break
+                if isinstance(st, ast.If) and not st.orelse and len(st.body) == 1 and isinstance(st.body[0], ast.Continue):
+                    if re.fullmatch(r"any\(\(?(\w+)\.get_target_override_mode\(\) != ActionOverrideMode\.NONE for \1 in %s\.actions\)?\)" % re.escape(tv), ast.unparse(st.test)):
+                        lv = True
+            rep.check(lv, "C05.h", SC, f"{name}: a fall-through transition whose own actions may leave early is not merged into a consuming one",
+                      "a fall-through transition carrying an action that may leave early (conditional break, overflowing append) is merged into a consuming transition: when the action leaves, "
+                      "the generated code consumes the byte on the way out, which the unoptimised machine re-examines")
         rep.check(acc, "C05.g", SC, f"{name}: a transition into an accepting state is never rewired past it",
                   "the pass retargets a fall-through transition past an accepting state: the machine no longer rests in that state, so feed()/end() report a different "
                   "result at that point (e.g. `optional { \"a\"; } finish; ...` under -O3)")
@@ -259,3 +272,46 @@ def run(ctx, rep, tier):
     rep.rule("C05.f", "range collapsing: at the first non-consecutive value the current run is closed and a new run starts at that value, unconditionally")
     from .c06 import check_range_runs
     check_range_runs(ctx, rep, "C05.f")
+
+
+def check_getitem_contract(ctx, rep, rule):
+    """DFState.__getitem__(set) answers 'the one transition every symbol of the set follows': a transition only when the set is contained in
+    its symbols, None as soon as the set meets a transition without being contained, the Else transition only when no explicit transition
+    meets the set. The optimiser and append_after both rewire on a non-None answer."""
+    model = ctx.model
+    rep.rule(rule, "DFState.__getitem__(set): a transition iff the set is contained in its symbols; None when a transition covers only part of the set; Else only if none intersects")
+    fq = "DFState.__getitem__"
+    fn = model.func(fq)
+    arm = next((n for n in fn.body if isinstance(n, ast.If) and "(list, tuple, set, frozenset)" in ast.unparse(n.test)), None)
+    if arm is None:
+        raise AnalysisError(f"{rule}: set branch of DFState.__getitem__ not found")
+    loop = next((n for n in arm.body if isinstance(n, ast.For)), None)
+    ok = loop is not None and ast.unparse(loop.iter) == "self.all_transitions()"
+    v = ast.unparse(loop.target) if loop is not None else "?"
+    contained = partial = False
+    if loop is not None:
+        for st in loop.body:
+            if isinstance(st, ast.If):
+                t = ast.unparse(st.test)
+                if t == f"data <= set({v}.on_values)" and ast.unparse(st.body[-1]) == f"return {v}":
+                    contained = True
+                    for e in st.orelse:
+                        if isinstance(e, ast.If) and ast.unparse(e.test) in (f"data & set({v}.on_values)", f"not data.isdisjoint({v}.on_values)", f"not data.isdisjoint(set({v}.on_values))") and ast.unparse(e.body[-1]) == "return None":
+                            partial = True
+                elif contained and t in (f"data & set({v}.on_values)", f"not data.isdisjoint({v}.on_values)") and ast.unparse(st.body[-1]) == "return None":
+                    partial = True
+    last = arm.body[-1]
+    rep.check(ok and contained, rule, fq, "a transition is returned only when it covers the whole set", "containment test of the set lookup changed")
+    rep.check(partial, rule, fq, "a transition that covers only part of the set makes the answer None", "a transition sharing some but not all symbols with the queried set is skipped and the lookup falls back to "
+              "Else: callers (short-circuit pass, append_after) then treat explicitly handled symbols as if they took the Else transition")
+    rep.check(isinstance(last, ast.Return) and ast.unparse(last) == "return self[DFTransition.Else]" and last is not loop, rule, fq, "Else is the answer only after every explicit transition was found disjoint", "Else fallback changed")
+
+
+_run_h = run
+
+
+def run(ctx, rep, tier):
+    _run_h(ctx, rep, tier)
+    check_getitem_contract(ctx, rep, "C05.i")
+    from . import structs
+    structs.check_copy_complete(ctx, rep, "C05.j")      # the pass mutates action lists in place: copies must not share them with the originals
